@@ -426,6 +426,35 @@ def x2_shift_index_is_position(F, r):
         raise AnchorError(f"only {n} enumerations over vehicle shifts found (5 counted on the pinned tree)")
 
 
+def d1_decomposition_partitions_pools(F, r):
+    """decomposition: the parent's pending pools (required / ignored / unassigned) go to exactly ONE partial context (the route-less one); every other partial context starts
+    with empty pools, because `merge_best` extends the merged pools from every partial context — a pool handed to all of them comes back once per context"""
+    root = F.find1("decompose_search::create_partial_insertion_ctx")
+    n = 0
+    for g in F.family(root):
+        fn = F.fns[g]
+        for bi, si, st in mir.stmts(fn):
+            rv = st["r"]
+            if rv["k"] != "agg" or not rv.get("n", "").endswith("heuristics::context::SolutionContext#SolutionContext"):
+                continue
+            for pool in ("required", "ignored", "unassigned"):
+                if pool not in rv["fs"]:
+                    continue
+                n += 1
+
+                def is_source(f_, kind, x, pool=pool):
+                    return kind == "place" and any(isinstance(e, list) and e[0] == "f" and e[1].endswith("SolutionContext") and e[2] == pool for e in x["p"])
+                v = mir.must_derive(F, fn, rv["o"][rv["fs"].index(pool)], is_source)
+                inst = f"create_partial_insertion_ctx: {pool}"
+                if v is True:
+                    r.fail(inst, f"every partial context receives the parent's `{pool}` pool: merge_best extends the merged `{pool}` from each of them, so every pending job comes back "
+                           "once per partial context (and a job assigned in one sub-search stays pending in its siblings)", F.loc(g, st.get("ln")))
+                else:
+                    r.ok(inst, "only one alternative (the route-less context) takes the parent's pool, the others start empty")
+    if n < 3:
+        raise AnchorError(f"create_partial_insertion_ctx: only {n} pool fields found in the SolutionContext construction")
+
+
 def q1_no_self_comparison(F, r):
     from .common import lints_rule
     n = lints_rule(F, r, ("vrp_pragmatic::format", "vrp_core::construction::heuristics", "vrp_core::construction::probing", "vrp_core::construction::clustering",
@@ -452,6 +481,7 @@ def run(ctx):
     ctx.run("C02-P6", "functions that move jobs into a place clean the places the jobs can come from (exclusive job places, reasoned table)", p6_moves_clean_sources, floor=18)
     ctx.run("C02-P5", "empty tours are dropped after the last state acceptance in every function that drops them", p5_empty_tours_removed_last, floor=3)
     ctx.run("C02-X1", "vicinity clustering never merges a job bound by a relation: the job filter must-derives from plan.relations on every alternative", x1_relation_jobs_not_clustered, floor=1)
+    ctx.run("C02-D1", "decomposition hands the parent's pending pools to one partial context only (merge would duplicate them)", d1_decomposition_partitions_pools, floor=3)
     ctx.run("C02-X2", "shift indices are positions in vehicle.shifts: shifts are enumerated before any element-dropping adapter", x2_shift_index_is_position, floor=4)
     ctx.run("C02-Q1", "no comparison relates a value to itself in job/vehicle matching code (constant guard)", q1_no_self_comparison, floor=1)
     ctx.run("C02-P3", "final report: unassigned ∪ required reported; every route reported and written", p3_final_report, floor=4)
